@@ -1,6 +1,21 @@
 package main
 
-import "sync"
+// SHA-256 as a collision-free function: concrete inputs are hashed for real;
+// a (partly) symbolic input yields 32 fresh symbolic bytes and, against every
+// other digest computed on the path, the axiom  digest1 = digest2  <=>
+// stream1 = stream2  (<= is functionality, => is collision-freeness).
+// CRC-32 (IEEE) likewise as an uninterpreted checksum with functionality and
+// the burst axiom discharged separately (see models_crc.go).
+
+import (
+	"crypto/sha256"
+	"fmt"
+	"go/types"
+	"math/big"
+	"sync"
+
+	"golang.org/x/tools/go/ssa"
+)
 
 type shaRec struct {
 	stream []value
@@ -12,7 +27,244 @@ type crcRec struct {
 	sum  *Term
 }
 
-func registerHash(e *engine)   {}
 func registerCodecs(e *engine) { registerProto(e) }
 
 func newMutex() *sync.Mutex { return &sync.Mutex{} }
+
+func (m *machine) sha256Of(stream []value) []value {
+	if cb, ok := concBytes(stream); ok {
+		d := sha256.Sum256(cb)
+		out := bytesToValues(d[:])
+		m.models.shaDigests = append(m.models.shaDigests, &shaRec{stream: append([]value{}, stream...), digest: out})
+		return append([]value{}, out...)
+	}
+	// functionality shortcut: identical stream terms
+	for _, r := range m.models.shaDigests {
+		if len(r.stream) == len(stream) {
+			same := true
+			for i := range stream {
+				if !identicalVal(r.stream[i], stream[i]) {
+					same = false
+					break
+				}
+			}
+			if same {
+				return append([]value{}, r.digest...)
+			}
+		}
+	}
+	n := len(m.models.shaDigests)
+	out := make([]value, 32)
+	for i := range out {
+		out[i] = m.newInternalInt(fmt.Sprintf("sha%d_%d", n, i), big.NewInt(0), big.NewInt(255))
+	}
+	rec := &shaRec{stream: append([]value{}, stream...), digest: out}
+	for _, r := range m.models.shaDigests {
+		deq := m.bytesEq(r.digest, out)
+		var seq value = false
+		if len(r.stream) == len(stream) {
+			seq = m.bytesEq(r.stream, stream)
+		}
+		ax := m.ts.Eq(m.boolTerm(deq), m.boolTerm(seq))
+		m.addPC(ax)
+	}
+	m.models.shaDigests = append(m.models.shaDigests, rec)
+	m.models.shaSymbolic++
+	return append([]value{}, out...)
+}
+
+func (m *machine) boolTerm(v value) *Term {
+	switch x := v.(type) {
+	case bool:
+		return m.ts.Bool(x)
+	case *Term:
+		return x
+	}
+	panic(engineError{"boolTerm"})
+}
+
+// leBytes returns the little/big-endian bytes of an integer value of n bytes.
+func (m *machine) intBytes(v value, t types.Type, n int, little bool) []value {
+	out := make([]value, n)
+	if tm, ok := v.(*Term); ok {
+		k, _ := intInfo(t)
+		u := m.unsignedRep(tm, k)
+		for i := 0; i < n; i++ {
+			b := m.ts.ModE(m.ts.DivE(u, pow2(8*i)), big.NewInt(256))
+			var bv value = b
+			if b.IsConst() {
+				bv = uint8(b.Val.Int64())
+			}
+			if little {
+				out[i] = bv
+			} else {
+				out[n-1-i] = bv
+			}
+		}
+		return out
+	}
+	var u uint64
+	if b, ok := v.(bool); ok {
+		if b {
+			u = 1
+		}
+	} else {
+		u = asUint64(v)
+	}
+	for i := 0; i < n; i++ {
+		b := uint8(u >> (8 * uint(i)))
+		if little {
+			out[i] = b
+		} else {
+			out[n-1-i] = b
+		}
+	}
+	return out
+}
+
+func basicSize(t types.Type) int {
+	if b, ok := t.Underlying().(*types.Basic); ok {
+		switch b.Kind() {
+		case types.Bool, types.Int8, types.Uint8:
+			return 1
+		case types.Int16, types.Uint16:
+			return 2
+		case types.Int32, types.Uint32, types.Float32:
+			return 4
+		case types.Int64, types.Uint64, types.Float64:
+			return 8
+		}
+	}
+	return 0
+}
+
+func registerHash(e *engine) {
+	// sha256.New / Write / Sum / Reset, Sum256
+	e.reg("crypto/sha256.New", func(fr *frame, fn *ssa.Function, a []value) value {
+		pkg := fr.m.eng.prog.ImportedPackage("crypto/sha256")
+		dt := pkg.Type("digest").Type()
+		z := zero(dt)
+		z.(structure)[0] = []value{}
+		return iface{t: types.NewPointer(dt), v: &z}
+	})
+	e.reg("(*crypto/sha256.digest).Write", func(fr *frame, fn *ssa.Function, a []value) value {
+		s := structOf(a[0])
+		cur, _ := s[0].([]value)
+		s[0] = append(append([]value{}, cur...), a[1].([]value)...)
+		return tuple{len(a[1].([]value)), iface{}}
+	})
+	e.reg("(*crypto/sha256.digest).Sum", func(fr *frame, fn *ssa.Function, a []value) value {
+		s := structOf(a[0])
+		cur, _ := s[0].([]value)
+		d := fr.m.sha256Of(cur)
+		prefix, _ := a[1].([]value)
+		return append(append([]value{}, prefix...), d...)
+	})
+	e.reg("(*crypto/sha256.digest).Reset", func(fr *frame, fn *ssa.Function, a []value) value {
+		structOf(a[0])[0] = []value{}
+		return nil
+	})
+	e.reg("(*crypto/sha256.digest).Size", func(fr *frame, fn *ssa.Function, a []value) value { return 32 })
+	e.reg("(*crypto/sha256.digest).BlockSize", func(fr *frame, fn *ssa.Function, a []value) value { return 64 })
+	e.reg("crypto/sha256.Sum256", func(fr *frame, fn *ssa.Function, a []value) value {
+		d := fr.m.sha256Of(a[0].([]value))
+		return array(d)
+	})
+	// the vendored helper package used by some callers
+	e.reg("github.com/xuperchain/crypto/core/hash.UsingSha256", func(fr *frame, fn *ssa.Function, a []value) value {
+		return fr.m.sha256Of(a[0].([]value))
+	})
+	e.reg("github.com/xuperchain/crypto/core/hash.DoubleSha256", func(fr *frame, fn *ssa.Function, a []value) value {
+		return fr.m.sha256Of(fr.m.sha256Of(a[0].([]value)))
+	})
+
+	// encoding/binary
+	binWrite := func(fr *frame, w iface, order iface, data iface) value {
+		m := fr.m
+		little := true
+		if order.t != nil && types.TypeString(order.t, nil) == "encoding/binary.bigEndian" {
+			little = false
+		}
+		var out []value
+		var enc func(v value, t types.Type)
+		enc = func(v value, t types.Type) {
+			switch ut := t.Underlying().(type) {
+			case *types.Basic:
+				n := basicSize(t)
+				if n == 0 {
+					m.unsupported("binary.Write of " + t.String())
+				}
+				if _, isF := v.(float64); isF {
+					m.unsupported("binary.Write of float")
+				}
+				out = append(out, m.intBytes(v, t, n, little)...)
+			case *types.Slice:
+				for _, x := range v.([]value) {
+					enc(x, ut.Elem())
+				}
+			case *types.Array:
+				for _, x := range v.(array) {
+					enc(x, ut.Elem())
+				}
+			case *types.Pointer:
+				p := v.(*value)
+				if p == nil {
+					m.unsupported("binary.Write of nil pointer")
+				}
+				enc(*p, ut.Elem())
+			case *types.Struct:
+				for i, x := range v.(structure) {
+					enc(x, ut.Field(i).Type())
+				}
+			default:
+				m.unsupported("binary.Write of " + t.String())
+			}
+		}
+		if data.t == nil {
+			return m.mkError("binary.Write: invalid type <nil>")
+		}
+		enc(data.v, data.t)
+		wf := m.eng.prog.LookupMethod(w.t, nil, "Write")
+		if wf == nil {
+			m.unsupported("binary.Write to writer without Write")
+		}
+		r := call(m, fr, 0, wf, []value{w.v, out}).(tuple)
+		return r[1]
+	}
+	e.reg("encoding/binary.Write", func(fr *frame, fn *ssa.Function, a []value) value {
+		return binWrite(fr, a[0].(iface), a[1].(iface), a[2].(iface))
+	})
+	for _, ord := range []string{"littleEndian", "bigEndian"} {
+		little := ord == "littleEndian"
+		for _, sz := range []int{2, 4, 8} {
+			sz := sz
+			name := fmt.Sprintf("Uint%d", sz*8)
+			e.reg("(encoding/binary."+ord+").Put"+name, func(fr *frame, fn *ssa.Function, a []value) value {
+				b := a[1].([]value)
+				if len(b) < sz {
+					fr.m.runtimePanic("index out of range")
+				}
+				bs := fr.m.intBytes(a[2], fn.Signature.Params().At(1).Type(), sz, little)
+				copy(b, bs)
+				return nil
+			})
+			e.reg("(encoding/binary."+ord+")."+name, func(fr *frame, fn *ssa.Function, a []value) value {
+				m := fr.m
+				b := a[1].([]value)
+				if len(b) < sz {
+					m.runtimePanic("index out of range")
+				}
+				acc := m.ts.Int(0)
+				for i := 0; i < sz; i++ {
+					idx := i
+					if !little {
+						idx = sz - 1 - i
+					}
+					acc = m.ts.Add(acc, m.ts.Mul(m.termOf(b[idx]), m.ts.IntBig(pow2(8*i))))
+				}
+				rt := fn.Signature.Results().At(0).Type()
+				return m.termVal2(acc, rt)
+			})
+		}
+	}
+}
